@@ -605,6 +605,22 @@ func modes(s *hx.Seq) {
 				if ok != wok || (ok && got != want) {
 					s.Fail(fmt.Sprintf("mode-magnitude-at %s t=t0%+v", name, d), fmt.Sprintf("MagnitudeAt=(%v,%v), want (%v,%v)", got, ok, want, wok), nil)
 				}
+				// ActiveAt on the mode is ActiveAt on its segments at the offset from its start (a mode without start
+				// time starts at t: offset 0 - where a leading zero-length segment is already over)
+				{
+					off := time.Duration(0)
+					if orig.StartTime != nil {
+						off = t.Sub(orig.StartTime.AsTime())
+					}
+					wel, widx := segmentpb.ActiveAt(off, orig.Segments...)
+					var el time.Duration
+					var idx int
+					if pn := guard(func() { el, idx = modepb.ActiveAt(t, m) }); pn != nil {
+						s.Fail(fmt.Sprintf("panic modepb.ActiveAt %s t=%v", name, d), fmt.Sprint(pn), nil)
+					} else if el != wel || idx != widx {
+						s.Fail(fmt.Sprintf("mode-active-at %s t=t0%+v", name, d), fmt.Sprintf("modepb.ActiveAt=(%v,%d); the segments read at offset %v give (%v,%d)", el, idx, off, wel, widx), nil)
+					}
+				}
 				// MaxSegmentAfter: the segment carrying the peak of the mode's function from t on
 				{
 					var peak float32
